@@ -93,15 +93,18 @@ def run_fifo_cases(run, binary, jbin, tmp, write_lists):
     (FIONREAD == 0), so every read(2) of the real code returns min(buffer size, what is left of the
     current write): a deterministic short-read schedule.  The schedule handed to the model is derived
     from the writes and the progress the implementation made; the model must then produce the same chunks."""
-    import subprocess, fcntl, termios, struct, time, errno
+    import subprocess, fcntl, termios, struct, time, errno, select
     pending = []
+    early_stops = 0
     for i, writes in enumerate(write_lists):
+        if early_stops >= 2:
+            break
         fifo = os.path.join(tmp, 'fifo_%d' % i)
         os.mkfifo(fifo)
         data = run.rng.randbytes(sum(writes))
         p = subprocess.Popen([binary, '--verif-harness', 'chunks'], stdin=subprocess.PIPE, stdout=subprocess.PIPE,
                              stderr=subprocess.DEVNULL, text=True)
-        conclusive, line = True, ''
+        conclusive, line, early = True, '', None
         try:
             p.stdin.write('G %s\n' % cl.hexs(fifo)); p.stdin.flush()
             fd, t0 = None, time.time()
@@ -124,6 +127,11 @@ def run_fifo_cases(run, binary, jbin, tmp, write_lists):
                         if time.time() - t0 > 20:
                             conclusive = False
                             break
+                        if select.select([p.stdout], [], [], 0)[0]:
+                            # the reader has answered although bytes written to the pipe are still unread: it stopped before the end of the stream
+                            early = p.stdout.readline().strip()
+                            conclusive = False
+                            break
                         time.sleep(0.0005)
                     if not conclusive:
                         break
@@ -139,6 +147,13 @@ def run_fifo_cases(run, binary, jbin, tmp, write_lists):
                 p.kill()
             p.wait()
             os.unlink(fifo)
+        if early is not None:
+            early_stops += 1
+            run.count('fifo:reader-stopped-early')
+            run.fail('C11 chunk reader: the reader reported the end of the content while %d of %d bytes written to the stream were still unread (writes %r): %s' % (
+                sum(writes) - sum(n for n, _, _ in (cl.parse_chunks(early) or [])), sum(writes), writes, early[:200]),
+                {'driver': 'unit-chunks-fifo', 'writes': writes, 'impl': early[:2000]})
+            continue
         if not conclusive or not line:
             run.count('fifo:inconclusive')
             continue
@@ -406,6 +421,34 @@ def e2e_cases(run, binary, tmp, tier, placements=None, tag='', zero_families=Tru
 
 
 # ------------------------------------------------------------------------------------------------
+def e2e_understated_sizes(run, binary, tmp):
+    """Sources whose listed size understates (or says nothing about) their content: procfs files are listed with size 0 and have
+    content.  The length seen when the trees were compared differs from the length at copy time: the run must fail - or, if it
+    reports success, the destination must hold exactly the content."""
+    for i, src in enumerate(['/proc/version', '/proc/cpuinfo', '/proc/self/limits', '/proc/filesystems']):
+        if not os.path.isfile(src):
+            continue
+        try:
+            content = open(src, 'rb').read()
+        except OSError:
+            continue
+        if not content or os.stat(src).st_size == len(content):
+            continue
+        d = os.path.join(tmp, 'under%d' % i)
+        os.makedirs(d)
+        r = e2e.run_cli(binary, [src, os.path.join(d, 'out')], timeout=60)
+        run.count('e2e-understated-size:exit:%s' % r['exit'])
+        run.case(('e2e-understated', src), True, sample={'source': src, 'listed_size': os.stat(src).st_size, 'content_bytes': len(content), 'exit': r['exit']})
+        run.traces_validated += 1
+        got = open(os.path.join(d, 'out'), 'rb').read() if os.path.isfile(os.path.join(d, 'out')) else None
+        if r['exit'] == 0 and src != '/proc/self/limits' and got != content:
+            run.fail('C11: %s is listed with %d bytes and has %d; the run reported success with a destination of %s bytes' % (
+                src, os.stat(src).st_size, len(content), 'no' if got is None else len(got)), {'driver': 'e2e-understated', 'source': src, 'exit': r['exit']})
+        elif r['exit'] == 0 and got is not None and len(got) == 0:
+            run.fail('C11: %s has content but the run reported success with an empty destination' % src, {'driver': 'e2e-understated', 'source': src, 'exit': r['exit']})
+        shutil.rmtree(d, ignore_errors=True)
+
+
 def setup(run):
     run.trusted = list(vlib.COMMON_TRUSTED) + [
         'modelled, not verified: read(2) (returns 0 only at end of file, otherwise 1..buffer-size bytes; which one is the schedule), '
@@ -497,6 +540,7 @@ def check(run):
         # (c)
         e2e_cases(run, binary, tmp, tier)
         e2e_terminal(run, binary, tmp, tier)
+        e2e_understated_sizes(run, binary, tmp)
 
         def search():
             """Something (a proof, the correspondence) broke but no failing input was seen: push the
